@@ -103,11 +103,12 @@ func (c18) Rule() string {
 }
 
 func (c18) Assumptions() []string {
-	return []string{"strict bounds are taken closed when forming a conjunct's region", "a read is a key passed to Get or a key returned by Cursor.Next; Cursor()/Seek() calls are not reads", "a batch-mode caller issues one more Batch call after the last non-empty batch"}
+	return []string{"strict bounds are taken closed when forming a conjunct's region", "a read is a key passed to Get or a key returned by Cursor.Next; Cursor()/Seek() calls are not reads", "a batch-mode caller issues one more Batch call after the last non-empty batch", "storage faults are single failing Seek calls; reads are judged whether or not the statement then reports the error (that is C13's)"}
 }
 
 func (c18) Gates(tier string, m map[string]int64) []rt.Gate {
 	return []rt.Gate{
+		rt.GateMin("runs of a pinned statement with a failing Seek", m, "runs_with_a_failing_seek", 1000),
 		rt.GateMin("pinned clauses under a LIMIT whose offset exceeds the matches", m, "offset_beyond_the_matches", 200),
 		rt.GateMin("satisfiable shapes with reads observed", m, "shapes_with_reads", 1000),
 		rt.Gate{Name: "satisfiable shapes WITHOUT any read (nothing monitored)", Observed: m["satisfiable_without_reads"], Need: 0, OK: m["satisfiable_without_reads"] == 0},
@@ -119,6 +120,18 @@ func (c18) Gates(tier string, m map[string]int64) []rt.Gate {
 }
 
 var c18Store = c02StoreA
+
+// c18Sparse: the universe without the boundary keys (only strings over {a,b,c}): after the
+// region of a prefix of length n come keys shorter than n.
+var c18Sparse = func() []refstore.Pair {
+	var out []refstore.Pair
+	for _, p := range c02StoreA {
+		if strings.Trim(p.K, "abc") == "" {
+			out = append(out, p)
+		}
+	}
+	return out
+}()
 
 func (k c18) Run(c *rt.Ctx) {
 	lo := c.Case * c18Block
@@ -292,8 +305,22 @@ func (k c18) judge(c *rt.Ctx, tree *gen.Node, pins []c18Atom, isFalse bool) {
 		}
 	}
 	modes := []drive.Mode{{Batch: false, Size: 32, Cache: true}, {Batch: true, Size: []int{1, 3, 32}[c.R.Intn(3)], Cache: true}}
+	for _, pin := range pins {
+		if pin.kind == "prefix" && len(pin.pre) >= 2 {
+			// also over the sparse store, where the keys right after a prefix region are shorter
+			// than the prefix (no boundary keys in between)
+			modes = append(modes, drive.Mode{Batch: false, Size: 32, Cache: true, ExtraPolls: 1}, drive.Mode{Batch: true, Size: 3, Cache: true, ExtraPolls: 1})
+			break
+		}
+	}
 	for _, m := range modes {
-		st := refstore.New(c18Store)
+		pairs := c18Store
+		if m.ExtraPolls == 1 {
+			pairs = c18Sparse
+			m.ExtraPolls = 0
+			rec.Inc("sparse_store_drains")
+		}
+		st := refstore.New(pairs)
 		o := drive.Run(query, st, m)
 		rec.Eval(1)
 		md := "row"
@@ -402,6 +429,57 @@ func (k c18) judge(c *rt.Ctx, tree *gen.Node, pins []c18Atom, isFalse bool) {
 		if !ok {
 			c.Violation("read-outside-every-pinned-region", cluster, detail(rt.D{"per_conjunct": best}))
 			return
+		}
+		// the same statement with each positioning call (Seek) failing once: whatever is read
+		// before the statement ends must still lie inside a pinned region
+		for fi, e := range log {
+			if e.Op != refstore.OpSeek {
+				continue
+			}
+			fst := refstore.New(pairs)
+			fst.FailAt = fi
+			fst.Transient = true
+			fo := drive.Run(query, fst, m)
+			rec.Eval(1)
+			rec.Inc("runs_with_a_failing_seek")
+			if fo.Status() == "panic" {
+				rec.NotJudged("statement panics after a failing Seek (C13/C06)")
+				continue
+			}
+			var freads []string
+			for _, fe := range fst.Log() {
+				if (fe.Op == refstore.OpGet || fe.Op == refstore.OpNext) && fe.Res == "hit" {
+					freads = append(freads, fe.Key)
+				}
+			}
+			if len(freads) == 0 {
+				continue
+			}
+			fok := false
+			for _, p := range pins {
+				before, beyond, other := 0, 0, 0
+				for _, kk := range freads {
+					switch p.where(kk) {
+					case -1:
+						before++
+					case 1:
+						beyond++
+					case 2:
+						other++
+					}
+				}
+				if before == 0 && other == 0 && beyond <= 1 {
+					fok = true
+					break
+				}
+			}
+			if !fok {
+				flog := fst.Log()
+				c.Violation("read-outside-every-pinned-region", cluster+" / after a failing Seek", func() rt.D {
+					return rt.D{"query": query, "mode": m.String(), "failed_call": fi, "reads": freads, "storage_log": trimLog(refstore.FormatLog(flog)), "outcome": outcomeBrief(fo)}
+				})
+				return
+			}
 		}
 	}
 	if c.Case%400 == 0 && c.R.Chance(1, 8) {
